@@ -127,7 +127,16 @@ func (p *printer) node(n *Node, d int, nest int) {
 		v := fmt.Sprintf("i%d", n.ID)
 		post := v + "++"
 		init := v + " := 0"
-		switch n.Post % 6 {
+		emptyCond, emptyPost := false, false
+		switch n.Post % 9 {
+		case 6: // no condition: the body's first statement leaves the loop
+			emptyCond = true
+		case 7: // no init statement: the counter is declared before the loop
+			p.line(d, "%s := 0", v)
+			init = ""
+		case 8: // no post statement: the body's first statement advances the counter
+			init = v + " := -1"
+			emptyPost = true
 		case 5: // the step is a constant expression
 			post = v + " += 2 - 1"
 		case 1:
@@ -141,7 +150,18 @@ func (p *printer) node(n *Node, d int, nest int) {
 			v = fmt.Sprintf("ws[%d]", n.ID%64)
 			init, post = fmt.Sprintf("reset(%d)", n.ID%64), fmt.Sprintf("step(%d)", n.ID%64)
 		}
-		p.line(d, "for %s; %s < %d; %s {", init, v, n.N, post)
+		switch {
+		case emptyCond:
+			p.line(d, "for %s; ; %s {", init, post)
+			p.line(d+1, "if %s >= %d {", v, n.N)
+			p.line(d+2, "break")
+			p.line(d+1, "}")
+		case emptyPost:
+			p.line(d, "for %s; %s < %d; {", init, v, n.N-1)
+			p.line(d+1, "%s++", v)
+		default:
+			p.line(d, "for %s; %s < %d; %s {", init, v, n.N, post)
+		}
 		p.counters = append(p.counters, v)
 		p.block(n.Body, d+1, nest+1)
 		p.counters = p.counters[:len(p.counters)-1]
@@ -336,7 +356,7 @@ func (g *genState) stmt(depth int, inLoop, inSwitch bool) *Node {
 		}
 		return n
 	case 2:
-		n := &Node{K: "for", ID: g.nextID(), N: rx.Range(rt, "bound", 1, 3), Post: rx.Uniform(rt, 6, "post")}
+		n := &Node{K: "for", ID: g.nextID(), N: rx.Range(rt, "bound", 1, 3), Post: rx.Uniform(rt, 9, "post")}
 		n.Body = g.stmts(depth+1, true, false, 4)
 		return n
 	case 3:
@@ -501,7 +521,7 @@ func decorate(ns []*Node, salt int) {
 			n.Fill = 1 + (salt+n.ID*5)%(len(fillers)-1)
 		}
 		if n.K == "for" && n.Post == 1 && (salt+n.ID)%3 == 0 {
-			n.Post = 5
+			n.Post = 5 + (salt+n.ID)%4 // constant step, or one of the three clauses empty
 		}
 		decorate(n.Body, salt)
 		decorate(n.Else, salt)
